@@ -239,9 +239,14 @@ class IndexView(Contract):
             for rule, mode in [('trunc', 'saturate'), ('around', 'wrap')]:
                 for route in ('chained', 'direct', 'tuple_index'):
                     yield dict(fmt=[s, n, f], rule=rule, mode=mode, route=route)
+                    if mode == 'saturate':
+                        yield dict(fmt=[s, n, f], rule=rule, mode=mode, route=route, huge=True)
 
     def inputs(self, cfg, D):
         s, n, f = cfg['fmt']
+        if cfg.get('huge'):
+            # a saturating sentinel of any magnitude (|v| >= 2^64 takes the object path inside set_val)
+            return {'c': codes_in(D, 'c', 4, s, n), 'v': D.dyadic('v', -70)}
         return {'c': codes_in(D, 'c', 4, s, n), 'v': D.real('v', -2**20, 2**20)}
 
     def run(self, cfg, P, inp):
